@@ -32,6 +32,9 @@ def make_cfg(platform, acl_names, group_names, intfs, indent, noise_seed):
     """-> (text, expected) with sections in a seeded order"""
     rnd = random.Random(noise_seed)
     secs = []
+    # indentation is any leading whitespace: mostly spaces, for some seeds a tab or the whitespace characters that pasted text brings along
+    ich = {5: "\t", 6: "\xa0", 9: "\u3000"}.get(noise_seed % 11, " ")
+    pad = ich * indent
 
     def body_lines(lines):
         """indented section body; for some seeds column-0 comment lines (bare `!` and `! text`) sit between the body lines"""
@@ -39,7 +42,7 @@ def make_cfg(platform, acl_names, group_names, intfs, indent, noise_seed):
         for k, l in enumerate(lines):
             if noise_seed % 4 == 3 and k in (0, 1):
                 out.append("!" if k else "! temporary rule, ticket 42")
-            out.append(" " * indent + l)
+            out.append(pad + l)
         return out
     for n in acl_names:
         typ, body = ACL_BODIES[platform][n]
@@ -49,7 +52,7 @@ def make_cfg(platform, acl_names, group_names, intfs, indent, noise_seed):
         head = f"object-group network {g}" if platform == "ios" else f"object-group ip address {g}"
         secs.append("\n".join([head] + body_lines(GROUP_BODIES[platform][g])))
     for name, binds in intfs:
-        secs.append("\n".join([f"interface {name}"] + [" " * indent + "description uplink"] + [" " * indent + f"ip access-group {a} {d}" for a, d in binds]))
+        secs.append("\n".join([f"interface {name}"] + [pad + "description uplink"] + [pad + f"ip access-group {a} {d}" for a, d in binds]))
     for k in range(noise_seed % 3):
         secs.append(NOISE[(noise_seed + k) % len(NOISE)])
     rnd.shuffle(secs)
